@@ -1,6 +1,7 @@
 import Driver.Util
 import OlricModel.DMap.Model
 import OlricModel.DMap.Evict
+import Driver.Routing
 namespace Driver
 open Olric Olric.DMap
 
@@ -107,6 +108,8 @@ def clusterStep (s : CSt) (now : Int) (op : String) (a : List String) : Option (
       | none => []
     some ({ n := n, cfg := cfg, cl := Cluster.empty, routes := [], unreachable := [], mcq := 1,
             ecfg := ecfg, cdm := cdm, cidle := (optNat a "cidle_ms" 0 : Nat) * 1000000 }, s!"ok n={n}")
+  | "rt.fill" =>
+    some (s, s!"in={arg 0} out={routingFill s.cfg.R (arg 0)}")
   | "c.mcq" => some ({ s with mcq := nat (arg 0) }, "ok")
   | "c.unreach" => some ({ s with unreachable := nat (arg 0) :: s.unreachable }, "ok")
   | "c.nummembers" => some ({ s with numMembers := (nat (arg 0), nat (arg 1)) :: s.numMembers.filter (·.1 != nat (arg 0)) }, "ok")
